@@ -16,6 +16,7 @@ import (
 	"github.com/conduitio/conduit-commons/opencdc"
 	"github.com/conduitio/conduit/pkg/pipeline"
 	"github.com/conduitio/conduit/pkg/processor"
+	"github.com/conduitio/conduit/pkg/provisioning/config"
 	"github.com/conduitio/conduit/pkg/verifkit"
 	"github.com/conduitio/conduit/pkg/verifkit/fakes"
 	"github.com/conduitio/conduit/pkg/verifkit/stack"
@@ -44,6 +45,7 @@ type flowParams struct {
 	NoMatch      []int   `json:"no_match"`       // records that do not match the processors' condition (Cond: "match")
 	GateDLQOpen  bool    `json:"gate_dlq_open"`  // the DLQ connector's Open is a pending event (an unresponsive DLQ during start-up)
 	Reject       map[string][]string `json:"reject"` // destination -> records/pieces it rejects (forced answers, C08)
+	Apply        []string `json:"apply"` // live applies: "<kind>[+stale][+noauth]", kind in proc, twoprocs, conn, addproc; "||" prefix = concurrent with the previous one
 	Reconf       []string `json:"reconf"` // live reconfigure requests for processor "pp": "A", "B" (concurrent), "cancelA"
 	ProcOpenMenu []string `json:"proc_open_menu"`
 	Ctl          []string `json:"ctl"` // explicit control history (after "start"): stop, wait, stopwait, force, stopall, start; one at a time
@@ -90,6 +92,9 @@ func (p flowParams) name() string {
 	}
 	if len(p.Ctl) > 0 {
 		n += "/ctl=" + strings.Join(p.Ctl, ",")
+	}
+	if len(p.Apply) > 0 {
+		n += "/apply=" + strings.Join(p.Apply, ",") + "/procopen=" + strings.Join(p.ProcOpenMenu, ",")
 	}
 	if len(p.Reconf) > 0 {
 		n += "/reconf=" + strings.Join(p.Reconf, ",") + "/procopen=" + strings.Join(p.ProcOpenMenu, ",")
@@ -199,6 +204,7 @@ func flowScenario(p flowParams) verifkit.Scenario {
 					return "pass"
 				}})
 			}
+			procs.Add(fakes.ProcScript{Name: "pnew", OpenMenu: p.ProcOpenMenu})
 			st, err := stack.New(x.W, plugins, nil, stack.Options{Engine: engineOf(p.Engine), ProcPlugins: procs, PersisterBundle: p.Bundle, FaultCommits: p.Faults, FaultSets: p.Faults, Recovery: rec})
 			if err != nil {
 				panic(err)
@@ -215,6 +221,64 @@ func flowScenario(p flowParams) verifkit.Scenario {
 				err := st.LC.Start(x.Ctx, stack.PipelineID)
 				x.W.Log("ctl", "start.ret", -1, errStr(err))
 			}})
+			for ai, spec := range p.Apply {
+				ai, spec := ai, spec
+				startCtl := x.Controls[0]
+				concurrent := strings.HasPrefix(spec, "||")
+				spec = strings.TrimPrefix(spec, "||")
+				parts := strings.Split(spec, "+")
+				kind := parts[0]
+				stale, noauth := false, false
+				for _, f := range parts[1:] {
+					stale = stale || f == "stale"
+					noauth = noauth || f == "noauth"
+				}
+				gen := fmt.Sprintf("g%d", ai+1)
+				x.AddControl(&verifkit.Control{Name: fmt.Sprintf("apply#%d:%s", ai+1, spec), AfterPrevReturned: !concurrent, Enabled: startCtl.Returned, Do: func() {
+					cur, err := st.Prov.Export(x.Ctx, stack.PipelineID)
+					if err != nil {
+						x.W.Log("ctl", "apply.ret", ai+1, "export: "+errStr(err))
+						return
+					}
+					desired := clonePipelineConfig(cur)
+					switch kind {
+					case "proc", "twoprocs":
+						for i := range desired.Processors {
+							if kind == "proc" && desired.Processors[i].ID != "pp" {
+								continue
+							}
+							desired.Processors[i].Settings = map[string]string{"gen": gen}
+						}
+					case "conn":
+						for i := range desired.Connectors {
+							if desired.Connectors[i].ID == "s0" {
+								desired.Connectors[i].Settings = map[string]string{"x": gen}
+							}
+						}
+					case "addproc":
+						desired.Processors = append(desired.Processors, config.Processor{ID: "pnew" + gen, Plugin: "pnew", Settings: map[string]string{"gen": gen}, Workers: 1})
+					}
+					diff, err := st.Prov.Plan(x.Ctx, desired)
+					if err != nil {
+						x.W.Log("ctl", "apply.ret", ai+1, "plan: "+errStr(err))
+						return
+					}
+					if stale { // the state changes between plan and apply
+						mut := clonePipelineConfig(cur)
+						mut.Description = "changed-behind-the-plan"
+						if _, err := st.Pipelines.Update(x.Ctx, stack.PipelineID, pipeline.Config{Name: mut.Name, Description: mut.Description}); err != nil {
+							x.W.Log("ctl", "apply.mutate.err", ai+1, errStr(err))
+						}
+					}
+					x.W.Log("ctl", "apply.begin", ai+1, kind)
+					res, err := st.Prov.ApplyPlanLive(x.Ctx, desired, diff.Hash, !noauth)
+					stored := ""
+					if ex, e2 := st.Prov.Export(x.Ctx, stack.PipelineID); e2 == nil {
+						stored = storedSummary(ex)
+					}
+					x.W.Log("ctl", "apply.ret", ai+1, fmt.Sprintf("%s|mode=%s|stored=%s|status=%s", errStr(err), res.AppliedMode, stored, strings.SplitN(st.Status(), "|", 2)[0]))
+				}})
+			}
 			if len(p.Reconf) > 0 {
 				startCtl := x.Controls[0]
 				ctxA, cancelA := context.WithCancel(x.Ctx)
@@ -331,6 +395,49 @@ func flowScenario(p flowParams) verifkit.Scenario {
 			return outcomeOf(x)
 		},
 	}
+}
+
+func clonePipelineConfig(c config.Pipeline) config.Pipeline {
+	out := c
+	out.Connectors = nil
+	for _, cn := range c.Connectors {
+		cc := cn
+		cc.Settings = map[string]string{}
+		for k, v := range cn.Settings {
+			cc.Settings[k] = v
+		}
+		cc.Processors = append([]config.Processor(nil), cn.Processors...)
+		out.Connectors = append(out.Connectors, cc)
+	}
+	out.Processors = nil
+	for _, pr := range c.Processors {
+		pc := pr
+		pc.Settings = map[string]string{}
+		for k, v := range pr.Settings {
+			pc.Settings[k] = v
+		}
+		out.Processors = append(out.Processors, pc)
+	}
+	return out
+}
+
+// storedSummary renders what the stored configuration says about the things the applies change.
+func storedSummary(c config.Pipeline) string {
+	var parts []string
+	for _, pr := range c.Processors {
+		g := pr.Settings["gen"]
+		if g == "" {
+			g = "g0"
+		}
+		parts = append(parts, pr.ID+"="+g)
+	}
+	for _, cn := range c.Connectors {
+		if cn.Settings["x"] != "" {
+			parts = append(parts, cn.ID+".x="+cn.Settings["x"])
+		}
+	}
+	parts = append(parts, "desc="+c.Description)
+	return strings.Join(parts, ",")
 }
 
 func kindName(k string) string {
@@ -472,6 +579,9 @@ func filterFor(prop string, vs []verifkit.Violation) []verifkit.Violation {
 	for _, v := range vs {
 		if prop == "C13" && (strings.HasPrefix(v.Key, "C01/") || strings.HasPrefix(v.Key, "C04/") || strings.HasPrefix(v.Key, "C05/")) {
 			v.Key = "C13/order-acks-positions-affected:" + v.Key // a live reconfigure must leave order, acks and positions unaffected
+		}
+		if prop == "C16" && (strings.HasPrefix(v.Key, "C01/") || strings.HasPrefix(v.Key, "C03/") || strings.HasPrefix(v.Key, "C05/") || strings.HasPrefix(v.Key, "C02/position-covers-unhandled")) {
+			v.Key = "C16/record-lost-or-reordered-across-apply:" + v.Key // the apply must continue from the durable position with no skipped record
 		}
 		if prop == "C09" {
 			// C09 on the full stack: whatever shape a plugin replies with, the engine neither acknowledges an affected
